@@ -3,7 +3,7 @@
     [i] (upper) and [i+1] (lower) of a BDD (binary nodes, reduction rule "all
     children equal -> the child", no complement tags).
 
-    Executable definitions only; the proofs are in Mgr/LevelSwapProofs.v.
+    Executable definitions only; the proofs are in Mgr/LevelSwap{Base,Inv,WF,Sem,Proofs,Order}.v.
 
     What is modelled (names refer to the Rust function):
     - [upper.swap(&mut lower)]: the two unique tables and the entries of the
@@ -28,8 +28,16 @@
     Not modelled: the reference counters [nrc] (new nodes get 0, the counters of
     existing nodes are left alone; neither [WF] nor the interpreters read them),
     the slot numbers of new nodes (any fresh id), and the iteration order of the
-    hash table (ascending ids here; the resulting diagram is the same up to the
-    ids of the new nodes). *)
+    hash table (the order of [PositiveMap.elements] here; the resulting diagram
+    is the same up to the ids of the new nodes).
+
+    Proofs: Mgr/LevelSwapBase.v (helpers), LevelSwapInv.v (loop invariant and
+    relational specification of the table after the loop), LevelSwapWF.v
+    (well-formedness), LevelSwapSem.v (functions preserved), LevelSwapProofs.v
+    (removal of unreferenced nodes, the theorems about [level_swap]),
+    LevelSwapOrder.v ([set_var_order_model]).  The model is compared with
+    [oxidd_reorder::level_down] on real managers by ./check C08
+    (ocaml/lswap.ml). *)
 
 From Coq Require Import List NArith PArith Bool Arith FMapPositive.
 From OxiVerif Require Import DD.Table Mgr.SortOrder.
